@@ -184,6 +184,7 @@ func seq1(k int) []int {
 
 func c09Scenarios(tier string) []e1lib.Scenario {
 	var out []e1lib.Scenario
+	dev := false
 	add := func(c forkh.Cfg, bound int) {
 		var done []string
 		if !c.Cancel && c.Stop == -1 && (c.Stage != "partition" || c.Stop2 == -1) && c.ErrRd != "none" && c.Mode != "lift" {
@@ -195,7 +196,11 @@ func c09Scenarios(tier string) []e1lib.Scenario {
 				done = append(done, "err-eof")
 			}
 		}
-		out = append(out, e1lib.Scenario{Name: forkName(c), Root: func() { forkh.Scenario(c) }, Check: c09Check(c), Bound: bound, Sample: c, Sym: true, RealDone: done})
+		name := forkName(c)
+		if dev {
+			name += fmt.Sprintf(" deviations<=%d", bound)
+		}
+		out = append(out, e1lib.Scenario{Name: name, Root: func() { forkh.Scenario(c) }, Check: c09Check(c), Bound: bound, Deviations: dev, Sample: c, Sym: true, RealDone: done})
 	}
 	type pk struct{ par, k int }
 	sizes := []pk{{1, 0}, {1, 1}, {1, 2}, {1, 3}, {2, 0}, {2, 1}, {2, 2}, {2, 3}, {3, 1}, {3, 2}}
@@ -289,11 +294,53 @@ func c09Scenarios(tier string) []e1lib.Scenario {
 			}
 		}
 	}
+	// many workers and long inputs, explored up to a deviation bound: more workers than elements, more workers
+	// or elements than any plausible fixed buffer (8, 16, 32)
+	dev = true
+	db := 2
+	if tier == "thorough" {
+		db = 3
+	}
+	for _, s := range []pk{{5, 3}, {9, 2}, {17, 3}, {33, 2}, {2, 9}, {3, 17}, {4, 33}} {
+		b := db
+		if s.par > 9 || s.k > 9 {
+			b--
+		}
+		alt := 0
+		for x := 1; x <= s.k; x += 2 {
+			alt |= 1 << x
+		}
+		for _, ic := range []int{0, s.k} {
+			base := forkh.Cfg{Par: s.par, Input: seq1(s.k), InCap: ic, Stop: -1, Stop2: -1, ErrRd: "reader"}
+			for _, st := range []string{"map", "fmap", "filter", "partition", "foreach", "void"} {
+				c := base
+				c.Stage, c.Mode = st, "pure"
+				switch st {
+				case "map", "fmap":
+					c.Mode = "try"
+					c.Mask = 0
+					add(c, b)
+					c.Mask = alt
+					add(c, b)
+					c.Cancel = true
+					add(c, b)
+				case "filter", "partition":
+					c.Mask = alt
+					add(c, b)
+					c.Cancel = true
+					add(c, b)
+				default:
+					add(c, b)
+				}
+			}
+		}
+	}
+	dev = false
 	return out
 }
 
 func propC09() drv.Property {
 	return table("C09",
-		"one case = one fork stage (Map, FMap, Filter, Partition, ForEach, Void; Pure, Try and, for the closure clauses, Lift functions) x worker count par in 1..3 (4) x input 1..k (par*k <= 6 quick, up to par 3 x k 3, par 2 x k 4, par 4 x k 2 thorough) x input capacity {0, k} x every failure / predicate pattern x consumers draining / absent / leaving x canceller absent or free x error channel read or never read; the user function contains a scheduling point, so in-flight calls complete in every order; every interleaving explored (state-cached, unbounded; preemption bound 3 when par*k >= 8, 2 for the cancel / leave family at that size); non-trivial = more than one distinct terminal outcome",
+		"one case = one fork stage (Map, FMap, Filter, Partition, ForEach, Void; Pure, Try and, for the closure clauses, Lift functions) x worker count par in 1..3 (4) x input 1..k (par*k <= 6 quick, up to par 3 x k 3, par 2 x k 4, par 4 x k 2 thorough) x input capacity {0, k} x every failure / predicate pattern x consumers draining / absent / leaving x canceller absent or free x error channel read or never read; the user function contains a scheduling point, so in-flight calls complete in every order; every interleaving explored (state-cached, unbounded; preemption bound 3 when par*k >= 8, 2 for the cancel / leave family at that size); par x k in {5x3, 9x2, 17x3, 33x2, 2x9, 3x17, 4x33} explored up to 2 (thorough 3) deviations from the default schedule (one less above 9 workers or elements); non-trivial = more than one distinct terminal outcome",
 		append(commonAssumptions, "data races are invisible to a cooperative scheduler: the 'without data races' clause is covered by the auxiliary free-running -race pass only"), c09Scenarios)
 }
